@@ -71,6 +71,11 @@ for d in sorted(glob.glob(os.path.join(ROOT, "seeded", "C*"))):
             rep = "**missed** (check strengthened afterwards, see NOTES.md of the property)" if not os.path.exists(os.path.join(d, "result-after.txt")) else "missed at first; after strengthening: " + open(os.path.join(d, "result-after.txt")).read().split("\n")[0][:160]
         else:
             rep = first[:120]
+    ro = os.path.join(d, "result-other.txt")
+    if os.path.exists(ro):
+        caught = sorted(set(re.findall(r"check (C\d+) rc=1", open(ro).read())))
+        if caught:
+            rep += "; the change is reported with a replay by the check(s) of " + ", ".join(caught) + " (where its code lives)"
     def cl(x): return " ".join(str(x).replace("|", "/").split())[:260]
     seeds.append("| %s | %s | %s | %s |" % (sid, cl(meta.get("summary", "")), cl(meta.get("needs", "")), rep.replace("|", "/")))
 table = table + "\n" + "\n".join(seeds)
